@@ -37,6 +37,22 @@ unsafe impl GlobalAlloc for Counting {
         }
         p
     }
+    // forwarded (the default would be `alloc` + a memset: a zeroed 8 MiB buffer per block would then cost
+    // what it does not cost with the system allocator, whose large zeroed allocations are fresh pages)
+    unsafe fn alloc_zeroed(&self, l: Layout) -> *mut u8 {
+        let n = l.size();
+        if n > LIMIT.load(Ordering::Relaxed) {
+            BIGGEST.fetch_max(n, Ordering::Relaxed);
+            return std::ptr::null_mut();
+        }
+        let p = unsafe { System.alloc_zeroed(l) };
+        if !p.is_null() {
+            let live = LIVE.fetch_add(n, Ordering::Relaxed) + n;
+            PEAK.fetch_max(live, Ordering::Relaxed);
+            BIGGEST.fetch_max(n, Ordering::Relaxed);
+        }
+        p
+    }
     unsafe fn dealloc(&self, p: *mut u8, l: Layout) {
         LIVE.fetch_sub(l.size(), Ordering::Relaxed);
         unsafe { System.dealloc(p, l) }
@@ -223,13 +239,22 @@ fn mutate_blocks(rng: &mut Rng, inner: &[u8]) -> (Vec<u8>, String) {
     let mut blocks: Vec<Vec<u8>> = br[..nb].iter().map(|(a, b, _)| inner[*a..*b].to_vec()).collect();
     let i = rng.below(blocks.len() as u64) as usize;
     let j = rng.below(blocks.len() as u64) as usize;
-    let what = match rng.below(7) {
+    let what = match rng.below(8) {
         0 => { blocks.swap(i, j); "blocks:swap" }
         1 => { if i + 1 < blocks.len() { blocks.swap(i, i + 1); } "blocks:swap-adjacent" }
         2 => { let b = blocks[i].clone(); blocks.insert(j, b); "blocks:duplicate" }
         3 => { blocks.remove(i); "blocks:delete" }
         4 => { let b = blocks.remove(i); let k = rng.below(blocks.len() as u64 + 1) as usize; blocks.insert(k, b); "blocks:move" }
         5 => { let id = u64::from_le_bytes(blocks[j][1..9].try_into().unwrap()); blocks[i][1..9].copy_from_slice(&id.to_le_bytes()); "blocks:retarget-id" }
+        6 if blocks.iter().any(|b| b[0] == 0x00) => {
+            // a FileStart repeated later under a fresh id (same name twice in the stream)
+            let k = blocks.iter().position(|b| b[0] == 0x00).unwrap();
+            let mut b = blocks[k].clone();
+            b[1..9].copy_from_slice(&(1000 + rng.below(5)).to_le_bytes());
+            let at = rng.below(blocks.len() as u64 + 1) as usize;
+            blocks.insert(at.max(k + 1).min(blocks.len()), b);
+            "blocks:same-name-fresh-id"
+        }
         _ => { // move an end-of-file block before the file's last content block / damage its hash
             if let Some(e) = (0..blocks.len()).rev().find(|k| blocks[*k][0] == 0xFF) {
                 if rng.chance(1, 2) && e > 0 { blocks.swap(e, e - 1); "blocks:eof-earlier" } else { blocks[e][12] ^= 0x40; "blocks:eof-hash" }
@@ -373,6 +398,33 @@ fn long_tables(rng: &mut Rng) -> Vec<(Vec<u8>, Cfg, String)> {
     out
 }
 
+/// a plain archive whose single member is made of `n` zero-length content blocks followed by one
+/// real block (the format allows empty blocks; the writer never emits them): reading the member must
+/// not use stack (or time) in proportion to `n`
+fn many_empty_blocks(n: usize) -> Vec<u8> {
+    let mut b = b"MLA\x01\x00\x00\x00\x00\x00".to_vec();
+    let mut blk = vec![];
+    blk.push(0); blk.extend_from_slice(&0u64.to_le_bytes()); blk.extend_from_slice(&1u64.to_le_bytes()); blk.push(b'f');
+    for _ in 0..n { blk.push(1); blk.extend_from_slice(&0u64.to_le_bytes()); blk.extend_from_slice(&0u64.to_le_bytes()); }
+    blk.push(1); blk.extend_from_slice(&0u64.to_le_bytes()); blk.extend_from_slice(&3u64.to_le_bytes()); blk.extend_from_slice(b"abc");
+    let eof = blk.len();
+    blk.push(0xFF); blk.extend_from_slice(&0u64.to_le_bytes());
+    { use sha2::Digest; blk.extend_from_slice(&sha2::Sha256::digest(b"abc")); }
+    blk.push(0xFE);
+    b.extend_from_slice(&blk);
+    let mut f = vec![];
+    f.extend_from_slice(&1u64.to_le_bytes());
+    f.extend_from_slice(&1u64.to_le_bytes()); f.push(b'f');
+    f.extend_from_slice(&1u64.to_le_bytes());
+    f.extend_from_slice(&0u64.to_le_bytes());
+    f.extend_from_slice(&3u64.to_le_bytes());
+    f.extend_from_slice(&(eof as u64).to_le_bytes());
+    let l = f.len() as u32;
+    b.extend_from_slice(&f);
+    b.extend_from_slice(&l.to_le_bytes());
+    b
+}
+
 // ---------------------------------------------------------------------------------------------
 // parent side
 
@@ -396,6 +448,7 @@ pub fn run(ctx: &Ctx) -> Report {
         cases.push((b, c, "corpus:huge-sizes-entry".into()));
         for (b, c) in tiny_tables(&mut rng) { cases.push((b, c, "corpus:tiny-sizes-table".into())); }
         cases.extend(long_tables(&mut rng));
+        for n in [3usize, 2000, 60_000] { cases.push((many_empty_blocks(n), Cfg::plain(), format!("corpus:empty-blocks:{n}"))); }
         {
             // D7: footer length larger than the archive; D1: last chunk shorter than a tag
             let cfg = Cfg::plain();
